@@ -1,0 +1,139 @@
+// Copyright (C) 2026  The GoHBase Authors.  All rights reserved.
+// This file is part of GoHBase.
+// Use of this source code is governed by the Apache License 2.0
+// that can be found in the COPYING file.
+
+//go:build verif
+
+package gohbase
+
+import (
+	"context"
+	"io"
+	"time"
+
+	"github.com/tsuna/gohbase/hrpc"
+	"github.com/tsuna/gohbase/region"
+	"github.com/tsuna/gohbase/zk"
+	"modernc.org/b/v2"
+)
+
+// This file only exists in builds with the "verif" tag. It exposes a few
+// internals to an external verification harness and changes no behaviour.
+
+// VerifNewClient is NewClient with the ZooKeeper client replaced.
+func VerifNewClient(zkc zk.Client, options ...Option) Client {
+	c := newClient("verif", options...)
+	c.zkClient = zkc
+	return c
+}
+
+// VerifNewAdminClient is NewAdminClient with the ZooKeeper client replaced.
+func VerifNewAdminClient(zkc zk.Client, options ...Option) AdminClient {
+	c := newAdminClient("verif", options...).(*client)
+	c.zkClient = zkc
+	return c
+}
+
+// VerifRegions returns the regions currently in the key->region cache, in
+// cache order.
+func VerifRegions(cl Client) []hrpc.RegionInfo {
+	c := cl.(*client)
+	return c.regions.verifList()
+}
+
+// VerifClients returns address -> regions from the client->regions cache.
+func VerifClients(cl Client) map[hrpc.RegionClient][]hrpc.RegionInfo {
+	c := cl.(*client)
+	out := map[hrpc.RegionClient][]hrpc.RegionInfo{}
+	c.clients.m.RLock()
+	for rc, regs := range c.clients.regions {
+		l := make([]hrpc.RegionInfo, 0, len(regs))
+		for r := range regs {
+			l = append(l, r)
+		}
+		out[rc] = l
+	}
+	c.clients.m.RUnlock()
+	return out
+}
+
+// VerifMetaRegion returns the meta region info of a client.
+func VerifMetaRegion(cl Client) hrpc.RegionInfo {
+	return cl.(*client).metaRegionInfo
+}
+
+// VerifAdminRegion returns the admin region info of an admin client.
+func VerifAdminRegion(cl AdminClient) hrpc.RegionInfo {
+	return cl.(*client).adminRegionInfo
+}
+
+func (krc *keyRegionCache) verifList() []hrpc.RegionInfo {
+	var out []hrpc.RegionInfo
+	krc.m.RLock()
+	defer krc.m.RUnlock()
+	enum, err := krc.regions.SeekFirst()
+	if err != nil {
+		return nil
+	}
+	defer enum.Close()
+	for {
+		_, v, err := enum.Next()
+		if err == io.EOF {
+			return out
+		}
+		out = append(out, v)
+	}
+}
+
+// VerifCache is a standalone location cache as used by the client.
+type VerifCache struct {
+	c *client
+}
+
+// VerifNewCache creates an empty location cache.
+func VerifNewCache() *VerifCache {
+	c := newClient("verif")
+	return &VerifCache{c: c}
+}
+
+// Put inserts reg like a region discovery does.
+func (v *VerifCache) Put(reg hrpc.RegionInfo) ([]hrpc.RegionInfo, bool) {
+	return v.c.regions.put(reg)
+}
+
+// Del removes reg like a "region is gone" does.
+func (v *VerifCache) Del(reg hrpc.RegionInfo) bool {
+	return v.c.regions.del(reg)
+}
+
+// Lookup is the cache lookup used for routing.
+func (v *VerifCache) Lookup(table, key []byte) hrpc.RegionInfo {
+	return v.c.getRegionFromCache(table, key)
+}
+
+// List returns cache contents in cache order.
+func (v *VerifCache) List() []hrpc.RegionInfo {
+	return v.c.regions.verifList()
+}
+
+// VerifNewTree returns a b-tree ordered like the location cache.
+func VerifNewTree() *b.Tree[[]byte, hrpc.RegionInfo] {
+	return b.TreeNew[[]byte, hrpc.RegionInfo](region.Compare)
+}
+
+// VerifCreateRegionSearchKey exports createRegionSearchKey.
+func VerifCreateRegionSearchKey(table, key []byte) []byte {
+	return createRegionSearchKey(table, key)
+}
+
+// VerifSleepAndIncreaseBackoff exports sleepAndIncreaseBackoff.
+func VerifSleepAndIncreaseBackoff(ctx context.Context,
+	backoff time.Duration) (time.Duration, error) {
+	return sleepAndIncreaseBackoff(ctx, backoff)
+}
+
+// VerifFullyQualifiedTable exports fullyQualifiedTable.
+func VerifFullyQualifiedTable(reg hrpc.RegionInfo) []byte {
+	return fullyQualifiedTable(reg)
+}
